@@ -3,6 +3,7 @@
 //! tier: quick
 //! fns: linfa_reduction::pca::PcaParams::fit (guards, centring, what is handed to the truncated SVD, whitening scale per component, assembly of the model; SVD / mean / matrix arithmetic are tokens)
 //@ extract FIT from algorithms/linfa-reduction/src/pca.rs anchor "fn fit(&self, dataset: &DatasetBase<ArrayBase<D, Ix2>, T>) -> Result<Pca<f64>> {" body
+//@ desugar FIT range-contains
 //@ drop FIT from "#[cfg(feature = \"blas\")]" through "#[cfg(not(feature = \"blas\"))]" as "        /* dropped: the cfg(feature = blas) variant of the SVD call (ndarray-linalg back end, not built by the test-suite) */"
 //@ rewrite FIT "let x = x - &mean;" => "let x = x.sub_row_abs(&mean);   /* x - &mean */"
 //@ rewrite FIT "let (_, sigma, mut v_t) = result.values_vectors();" => "let (u_unused, sigma, mut v_t) = result.values_vectors();"
